@@ -1507,8 +1507,113 @@ func TestVerifC02(t *testing.T) {
 		{"only-comment", "# nothing\n"},
 		{"only-debug", "[debug]\naddress = \":9430\"\n"},
 	}
+	// every key under other spellings (Title, UPPER, camel, dashed) and with values of every other TOML type: the key
+	// grammar is exact, durations are strings, numbers are integers, flags are booleans
+	type keyAt struct{ head, tail, key, val string }
+	ifHead := "[[interfaces]]\nname = \"eth0\"\n"
+	keys := []keyAt{
+		{ifHead, "", "monitor", "false"}, {ifHead, "", "advertise", "true"}, {ifHead, "", "verbose", "true"},
+		{ifHead, "", "max_interval", "\"600s\""}, {ifHead, "", "min_interval", "\"200s\""}, {ifHead, "", "managed", "true"},
+		{ifHead, "", "other_config", "true"}, {ifHead, "", "reachable_time", "\"0s\""}, {ifHead, "", "retransmit_timer", "\"0s\""},
+		{ifHead, "", "hop_limit", "64"}, {ifHead, "", "default_lifetime", "\"1800s\""}, {ifHead, "", "unicast_only", "true"},
+		{ifHead, "", "mtu", "1500"}, {ifHead, "", "preference", "\"medium\""}, {ifHead, "", "source_lla", "true"},
+		{ifHead, "", "captive_portal", "\"https://example.com/\""},
+		{"[[interfaces]]\n", "", "name", "\"eth0\""}, {"[[interfaces]]\n", "", "names", "[\"eth0\"]"},
+		{ifHead + "[[interfaces.prefix]]\n", "", "prefix", "\"2001:db8::/64\""},
+		{ifHead + "[[interfaces.prefix]]\nprefix = \"2001:db8::/64\"\n", "", "on_link", "true"},
+		{ifHead + "[[interfaces.prefix]]\nprefix = \"2001:db8::/64\"\n", "", "autonomous", "true"},
+		{ifHead + "[[interfaces.prefix]]\nprefix = \"2001:db8::/64\"\n", "", "valid_lifetime", "\"48h\""},
+		{ifHead + "[[interfaces.prefix]]\nprefix = \"2001:db8::/64\"\n", "", "preferred_lifetime", "\"1h\""},
+		{ifHead + "[[interfaces.prefix]]\nprefix = \"2001:db8::/64\"\n", "", "deprecated", "false"},
+		{ifHead + "[[interfaces.route]]\nprefix = \"2001:db8:f::/48\"\n", "", "lifetime", "\"1h\""},
+		{ifHead + "[[interfaces.route]]\nprefix = \"2001:db8:f::/48\"\n", "", "preference", "\"high\""},
+		{ifHead + "[[interfaces.route]]\nprefix = \"2001:db8:f::/48\"\n", "", "deprecated", "false"},
+		{ifHead + "[[interfaces.rdnss]]\n", "", "servers", "[\"2001:db8::53\"]"},
+		{ifHead + "[[interfaces.rdnss]]\nservers = [\"2001:db8::53\"]\n", "", "lifetime", "\"1h\""},
+		{ifHead + "[[interfaces.dnssl]]\n", "", "domain_names", "[\"example.com\"]"},
+		{ifHead + "[[interfaces.dnssl]]\ndomain_names = [\"example.com\"]\n", "", "lifetime", "\"1h\""},
+		{ifHead + "[[interfaces.pref64]]\n", "", "prefix", "\"64:ff9b::/96\""},
+		{ifHead + "[debug]\n", "", "address", "\"localhost:9430\""},
+		{ifHead + "[debug]\naddress = \"localhost:9430\"\n", "", "prometheus", "true"},
+		{ifHead + "[debug]\naddress = \"localhost:9430\"\n", "", "pprof", "true"},
+	}
+	spell := func(k string) []string {
+		parts := strings.Split(k, "_")
+		title, camel := "", ""
+		for i, p := range parts {
+			t := strings.ToUpper(p[:1]) + p[1:]
+			title += t
+			if i == 0 {
+				camel += p
+			} else {
+				camel += t
+			}
+		}
+		l := []string{strings.ToUpper(k), strings.ToUpper(k[:1]) + k[1:], title, strings.ReplaceAll(k, "_", "-"), strings.ReplaceAll(k, "_", ""), k + "s", " " + k}
+		if camel != k {
+			l = append(l, camel)
+		}
+		if k == "pprof" {
+			l = append(l, "PProf", "pProf")
+		}
+		return l
+	}
+	for _, ka := range keys {
+		// the document as it is must be accepted (otherwise the probes below prove nothing)
+		decode = append(decode, struct{ name, text string }{fmt.Sprintf("ok!%s-%d", ka.key, len(ka.head)), ka.head + ka.key + " = " + ka.val + "\n" + ka.tail})
+		for j, sp := range spell(ka.key) {
+			if sp == ka.key || strings.HasPrefix(sp, " ") {
+				continue
+			}
+			if j == 0 {
+				// the all-capitals spelling: go-toml v1 matches a tagged field also under strings.ToUpper(tag), so the key is
+				// known to the decoder.  What matters for "no unknown keys" is that nothing is silently ignored: such a document
+				// is either rejected or means exactly what the documented spelling means
+				id := fmt.Sprintf("c02-decode-alias-%s-%s", ka.key, strings.ReplaceAll(strings.Fields(ka.head)[len(strings.Fields(ka.head))-1], "\"", ""))
+				if out.Wants(id) {
+					lower, errL, _ := safeParse(ka.head + ka.key + " = " + ka.val + "\n" + ka.tail)
+					upper, errU, panU := safeParse(ka.head + sp + " = " + ka.val + "\n" + ka.tail)
+					cs := verifh.Case{ID: id, Input: map[string]any{"toml": ka.head + sp + " = " + ka.val + "\n" + ka.tail}, Tags: []string{"stream:decode"}}
+					switch {
+					case panU != "":
+						cs.ImplViolation = "config.Parse panicked: " + panU
+					case errU != nil:
+						cs.Tags = append(cs.Tags, "result:reject")
+					case errL != nil || verifh.DeepDiff(verifh.DeepDump(lower), verifh.DeepDump(upper)) != "":
+						cs.ImplViolation = "the key " + sp + " is accepted but does not mean what " + ka.key + " means (ignored or misread)"
+					default:
+						cs.Tags = append(cs.Tags, "result:accept-as-alias")
+					}
+					out.Emit(cs)
+				}
+				continue
+			}
+			decode = append(decode, struct{ name, text string }{fmt.Sprintf("spelling-%s-%d-%d", ka.key, len(ka.head), j), ka.head + sp + " = " + ka.val + "\n" + ka.tail})
+		}
+		// values of other types; zero values in particular (a number 0 prints as "0", which parses as a duration)
+		for j, v := range []string{"0", "-0", "0x0", "0.0", "1", "true", "false", "\"\"", "\"0\"", "[]", "[0]", "{}", "1979-05-27T07:32:00Z"} {
+			isStr, isBool, isInt, isArr := strings.HasPrefix(ka.val, "\""), ka.val == "true" || ka.val == "false", ka.val[0] >= '0' && ka.val[0] <= '9', strings.HasPrefix(ka.val, "[")
+			vStr, vBool, vInt, vArr := strings.HasPrefix(v, "\""), v == "true" || v == "false", v == "0" || v == "-0" || v == "0x0" || v == "1", v == "[]" || v == "[0]"
+			if (isStr && vStr) || (isBool && vBool) || (isInt && vInt) || (isArr && vArr && v == "[]") {
+				continue // same type: the value grammar is the model's business
+			}
+			decode = append(decode, struct{ name, text string }{fmt.Sprintf("type-%s-%d-%d", ka.key, len(ka.head), j), ka.head + ka.key + " = " + v + "\n" + ka.tail})
+		}
+	}
 	for _, dc := range decode {
 		id := "c02-decode-" + dc.name
+		if strings.HasPrefix(dc.name, "ok!") {
+			if !out.Wants(id) {
+				continue
+			}
+			_, err, pan := safeParse(dc.text)
+			cs := verifh.Case{ID: id, Input: map[string]any{"toml": dc.text}, Desc: dc.name, Tags: []string{"stream:decode", "result:accept"}}
+			if err != nil || pan != "" {
+				cs.ImplViolation = fmt.Sprintf("the base document of a key probe is not accepted: %v %s", err, pan)
+			}
+			out.Emit(cs)
+			continue
+		}
 		if !out.Wants(id) {
 			continue
 		}
